@@ -280,7 +280,8 @@ def psV3Connack (c : C) (p : Pkt) : C :=
       (cancelTimers c).push .close
     else
       let c := { c with s := { c.s with status := .connected } }
-      sendPostProcess (sendStored c)
+      -- fix (C10): a CONNACK sent with session_present = false starts a new session
+      sendPostProcess (if p.sp then sendStored c else clearStoreRelated c)
 
 def connackSendProp (c : C) (id v : Nat) : C :=
   if id = pTAM then (if v ≠ 0 then { c with s := { c.s with tar := some { max := v } } } else c)
@@ -306,7 +307,8 @@ def psV5Connack (c : C) (p : Pkt) : C :=
       (cancelTimers c).push .close
     else
       let c := { c with s := { c.s with status := .connected } }
-      sendPostProcess (sendStored c)
+      -- fix (C10): a CONNACK sent with session_present = false starts a new session
+      sendPostProcess (if p.sp then sendStored c else clearStoreRelated c)
 
 def storeAdd (c : C) (id : Nat) (p : Pkt) (site : String) : C :=
   if storeHas id c.s.store then c.setPanic site
